@@ -3,6 +3,7 @@ From AQ Require Import model.TlsCodec model.TParams proofs.TParamsProofs proofs.
 From AQ Require Import proofs.CodecProofs proofs.VarintProofs proofs.AckFrameProofs proofs.HeaderProofs proofs.TlsCodecProofs.
 From AQ Require Import proofs.TlsListProofs proofs.TlsRoundtrip proofs.TlsTotal proofs.TlsDumpInverse.
 From AQ Require Import gen.C17Bits proofs.CBitsProofs gen.C17Blocks proofs.TlsNested proofs.TlsReencode.
+From AQ Require Import proofs.AckReencode proofs.HeaderReencode proofs.TlsReencodeExt proofs.TlsReencodeExt2 proofs.TlsReencodeCH proofs.TlsReencodeWitness proofs.TlsReencodeCanon.
 
 (* ---- variable-length integers (RFC 9000 section 16) ---- *)
 Theorem varint_roundtrip : forall v rest, 0 <= v < 2 ^ 62 ->
@@ -541,3 +542,203 @@ Theorem nst_reencode_not_canonical_refuted :
    exists b, reenc_nst bs = Some b /\ b <> bs /\ Zlen b = Zlen bs).
 Proof. exact TlsReencode.nst_reencode_not_canonical_refuted. Qed.
 Print Assumptions nst_reencode_not_canonical_refuted.
+
+(* ---- decode, then re-encode: the messages with an extension list (e17) ----
+   whatever pull_<msg> accepts is the dump of a record that is well-formed for the encoder; the encoder succeeds on it
+   (no OverflowError), the re-encoding is never longer than what was consumed and decodes to the SAME record whatever
+   follows it (idempotence) *)
+Theorem server_hello_reencode : forall bs d rest, bytes_ok bs -> pull_server_hello bs = Ok (d, rest) ->
+  exists m bytes', d = dump_server_hello m /\ server_hello_wf m = true /\
+    enc_seq (tree_server_hello m) = Ok bytes' /\ Zlen bytes' + Zlen rest <= Zlen bs /\
+    forall rest', pull_server_hello (bytes' ++ rest') = Ok (d, rest').
+Proof. exact TlsReencodeExt.server_hello_reencode. Qed.
+Print Assumptions server_hello_reencode.
+
+Theorem encrypted_extensions_reencode : forall bs d rest, bytes_ok bs -> pull_encrypted_extensions bs = Ok (d, rest) ->
+  exists m bytes', d = dump_encrypted_extensions m /\ encrypted_extensions_wf m = true /\
+    enc_seq (tree_encrypted_extensions m) = Ok bytes' /\ Zlen bytes' + Zlen rest <= Zlen bs /\
+    forall rest', pull_encrypted_extensions (bytes' ++ rest') = Ok (d, rest').
+Proof. exact TlsReencodeExt2.encrypted_extensions_reencode. Qed.
+Print Assumptions encrypted_extensions_reencode.
+
+(* second disjunct: the signature_algorithms extension was absent, the attribute is None and push_certificate_request
+   raises TypeError (outside the record model) *)
+Theorem certificate_request_reencode : forall bs d rest, bytes_ok bs -> pull_certificate_request bs = Ok (d, rest) ->
+  (exists m bytes', d = dump_certificate_request m /\ certificate_request_wf m = true /\
+     enc_seq (tree_certificate_request m) = Ok bytes' /\ Zlen bytes' + Zlen rest <= Zlen bs /\
+     forall rest', pull_certificate_request (bytes' ++ rest') = Ok (d, rest')) \/
+  (exists ctx others, d = out_bytes ctx ++ [0] ++ dump_list dump_ext others).
+Proof. exact TlsReencodeExt2.certificate_request_reencode. Qed.
+Print Assumptions certificate_request_reencode.
+
+(* second disjunct: one of key_share / supported_versions / signature_algorithms / supported_groups was absent (None) *)
+Theorem client_hello_reencode : forall bs d rest, bytes_ok bs -> pull_client_hello bs = Ok (d, rest) ->
+  (exists m bytes', d = dump_client_hello m /\ client_hello_wf m = true /\
+     enc_seq (tree_client_hello m) = Ok bytes' /\ Zlen bytes' + Zlen rest <= Zlen bs /\
+     forall rest', pull_client_hello (bytes' ++ rest') = Ok (d, rest')) \/
+  (exists random sid cs cm (ks : option (list ext)) (sv sa sg : option (list Z)) tail,
+     d = out_bytes random ++ out_bytes sid ++ dump_ints cs ++ dump_ints cm ++
+         dump_opt (dump_list dump_ext) ks ++ dump_opt dump_ints sv ++ dump_opt dump_ints sa ++ dump_opt dump_ints sg ++ tail /\
+     (ks = None \/ sv = None \/ sa = None \/ sg = None)).
+Proof. exact TlsReencodeCH.client_hello_reencode. Qed.
+Print Assumptions client_hello_reencode.
+
+Theorem certificate_request_reencode_none_refuted :
+  exists d, pull_certificate_request w_cr_none = Ok (d, []) /\ forall m, dump_certificate_request m <> d.
+Proof. exact TlsReencodeWitness.certificate_request_reencode_none_refuted. Qed.
+Print Assumptions certificate_request_reencode_none_refuted.
+
+Theorem client_hello_reencode_none_refuted :
+  exists d, pull_client_hello w_ch_none = Ok (d, []) /\ forall m, dump_client_hello m <> d.
+Proof. exact TlsReencodeWitness.client_hello_reencode_none_refuted. Qed.
+Print Assumptions client_hello_reencode_none_refuted.
+
+(* the re-encoding reproduces the consumed bytes exactly when they are the encoder's output for a well-formed record *)
+Theorem server_hello_reencode_canonical_iff : forall bs d rest, bytes_ok bs -> pull_server_hello bs = Ok (d, rest) ->
+  (bs = flat_seq (tree_server_hello (tk_server_hello d)) ++ rest <->
+   exists m, server_hello_wf m = true /\ fits_seq (tree_server_hello m) = true /\ bs = flat_seq (tree_server_hello m) ++ rest).
+Proof. exact TlsReencodeCanon.server_hello_reencode_canonical_iff. Qed.
+Print Assumptions server_hello_reencode_canonical_iff.
+
+Theorem encrypted_extensions_reencode_canonical_iff : forall bs d rest, bytes_ok bs ->
+  pull_encrypted_extensions bs = Ok (d, rest) ->
+  (bs = flat_seq (tree_encrypted_extensions (tk_encrypted_extensions d)) ++ rest <->
+   exists m, encrypted_extensions_wf m = true /\ fits_seq (tree_encrypted_extensions m) = true /\
+             bs = flat_seq (tree_encrypted_extensions m) ++ rest).
+Proof. exact TlsReencodeCanon.encrypted_extensions_reencode_canonical_iff. Qed.
+Print Assumptions encrypted_extensions_reencode_canonical_iff.
+
+Theorem new_session_ticket_reencode_canonical_iff : forall bs d rest, bytes_ok bs ->
+  pull_new_session_ticket bs = Ok (d, rest) ->
+  (bs = flat_seq (tree_new_session_ticket (tk_new_session_ticket d)) ++ rest <->
+   exists m, new_session_ticket_wf m = true /\ fits_seq (tree_new_session_ticket m) = true /\
+             bs = flat_seq (tree_new_session_ticket m) ++ rest).
+Proof. exact TlsReencodeCanon.new_session_ticket_reencode_canonical_iff. Qed.
+Print Assumptions new_session_ticket_reencode_canonical_iff.
+
+Theorem certificate_request_reencode_canonical_iff : forall bs rest m0, bytes_ok bs ->
+  pull_certificate_request bs = Ok (dump_certificate_request m0, rest) ->
+  (bs = flat_seq (tree_certificate_request m0) ++ rest <->
+   exists m, certificate_request_wf m = true /\ fits_seq (tree_certificate_request m) = true /\
+             bs = flat_seq (tree_certificate_request m) ++ rest).
+Proof. exact TlsReencodeCanon.certificate_request_reencode_canonical_iff. Qed.
+Print Assumptions certificate_request_reencode_canonical_iff.
+
+Theorem client_hello_reencode_canonical_iff : forall bs rest m0, bytes_ok bs ->
+  pull_client_hello bs = Ok (dump_client_hello m0, rest) ->
+  (bs = flat_seq (tree_client_hello m0) ++ rest <->
+   exists m, client_hello_wf m = true /\ fits_seq (tree_client_hello m) = true /\ bs = flat_seq (tree_client_hello m) ++ rest).
+Proof. exact TlsReencodeCanon.client_hello_reencode_canonical_iff. Qed.
+Print Assumptions client_hello_reencode_canonical_iff.
+
+(* ... and every way the decoders accept more than that, one witness each (replayed on tls.py, corpus cases tls-reenc-...) *)
+Theorem nst_reencode_order_refuted :
+  exists b, reenc_nst w_nst_order = Some b /\ b <> w_nst_order /\ Zlen b = Zlen w_nst_order.
+Proof. exact TlsReencodeWitness.nst_reencode_order_refuted. Qed.
+Print Assumptions nst_reencode_order_refuted.
+
+Theorem sh_reencode_not_canonical_refuted :
+  (exists b, reenc_sh w_sh_dup = Some b /\ b <> w_sh_dup /\ Zlen b < Zlen w_sh_dup) /\
+  (exists b, reenc_sh sh_lying_extension = Some b /\ b <> sh_lying_extension /\ Zlen b = Zlen sh_lying_extension) /\
+  (exists b, reenc_sh w_sh_order_known = Some b /\ b <> w_sh_order_known /\ Zlen b = Zlen w_sh_order_known) /\
+  (exists b, reenc_sh w_sh_order_other = Some b /\ b <> w_sh_order_other /\ Zlen b = Zlen w_sh_order_other).
+Proof. exact TlsReencodeWitness.sh_reencode_not_canonical_refuted. Qed.
+Print Assumptions sh_reencode_not_canonical_refuted.
+
+Theorem ee_reencode_not_canonical_refuted :
+  (exists b, reenc_ee w_ee_alpn_two = Some b /\ b <> w_ee_alpn_two /\ Zlen b < Zlen w_ee_alpn_two) /\
+  (exists b, reenc_ee w_ee_alpn_skip = Some b /\ b <> w_ee_alpn_skip /\ Zlen b < Zlen w_ee_alpn_skip) /\
+  (exists b, reenc_ee w_ee_order = Some b /\ b <> w_ee_order /\ Zlen b = Zlen w_ee_order).
+Proof. exact TlsReencodeWitness.ee_reencode_not_canonical_refuted. Qed.
+Print Assumptions ee_reencode_not_canonical_refuted.
+
+Theorem cr_reencode_not_canonical_refuted :
+  (exists b, reenc_cr w_cr_dup = Some b /\ b <> w_cr_dup /\ Zlen b < Zlen w_cr_dup) /\
+  (exists b, reenc_cr w_cr_order = Some b /\ b <> w_cr_order /\ Zlen b = Zlen w_cr_order).
+Proof. exact TlsReencodeWitness.cr_reencode_not_canonical_refuted. Qed.
+Print Assumptions cr_reencode_not_canonical_refuted.
+
+Theorem ch_reencode_not_canonical_refuted :
+  (exists b, reenc_ch w_ch_order = Some b /\ b <> w_ch_order /\ Zlen b = Zlen w_ch_order) /\
+  (exists b, reenc_ch w_ch_alpn_skip = Some b /\ b <> w_ch_alpn_skip /\ Zlen b < Zlen w_ch_alpn_skip) /\
+  (exists b, reenc_ch w_ch_early_before_other = Some b /\ b <> w_ch_early_before_other /\
+             Zlen b = Zlen w_ch_early_before_other) /\
+  (exists b, reenc_ch w_ch_lying = Some b /\ b <> w_ch_lying /\ Zlen b = Zlen w_ch_lying) /\
+  reenc_ch w_ch_canonical = Some w_ch_canonical.
+Proof. exact TlsReencodeWitness.ch_reencode_not_canonical_refuted. Qed.
+Print Assumptions ch_reencode_not_canonical_refuted.
+
+(* ---- ACK frames: decode, then re-encode (e17) ---- *)
+Theorem ack_reencode : forall bs l delay rest, bytes_ok bs -> pull_ack_frame bs = Ok ((l, delay), rest) ->
+  exists bytes', flatten (push_ack_frame l delay) = Ok bytes' /\ Zlen bytes' + Zlen rest <= Zlen bs /\
+    forall rest', pull_ack_frame (bytes' ++ rest') = Ok ((l, delay), rest').
+Proof. exact AckReencode.ack_reencode. Qed.
+Print Assumptions ack_reencode.
+
+(* the bytes are reproduced exactly when the re-encoding is not shorter: every varint of the input had the minimal width *)
+Theorem ack_reencode_canonical_iff : forall bs l delay rest bytes', bytes_ok bs ->
+  pull_ack_frame bs = Ok ((l, delay), rest) -> flatten (push_ack_frame l delay) = Ok bytes' ->
+  (bs = bytes' ++ rest <-> Zlen bytes' + Zlen rest = Zlen bs).
+Proof. exact AckReencode.ack_reencode_canonical_iff. Qed.
+Print Assumptions ack_reencode_canonical_iff.
+
+Theorem ack_reencode_nonminimal_refuted :
+  (let bs := [64; 10; 7; 2; 1; 2; 0; 1; 2] in
+   exists b, reenc_ack bs = Some b /\ b <> bs /\ Zlen b < Zlen bs /\ pull_ack_frame b = pull_ack_frame bs) /\
+  reenc_ack [10; 7; 2; 1; 2; 0; 1; 2] = Some [10; 7; 2; 1; 2; 0; 1; 2] /\
+  pull_ack_frame [3; 0; 0; 5] = Ok (([(-2, 4)], 0), []) /\ reenc_ack [3; 0; 0; 5] = Some [3; 0; 0; 5].
+Proof. exact AckReencode.ack_reencode_nonminimal_refuted. Qed.
+Print Assumptions ack_reencode_nonminimal_refuted.
+
+(* ---- packet headers: decode, then rebuild from the decoded fields (e17) ----
+   Not returned by pull_quic_header, hence not preserved: the four low bits of the first byte (reserved bits, packet
+   number length -- under header protection when the header is parsed), the widths of the token-length and Length
+   varints, the packet number; for 1-RTT also spin bit and key phase.  Preserved: everything the decoder returns. *)
+Theorem header_reencode_long : forall hcl bs h rest pn, bytes_ok bs -> pull_quic_header hcl bs = Ok (h, rest) ->
+  (h_type h = PT_INITIAL \/ h_type h = PT_ZERO_RTT \/ h_type h = PT_HANDSHAKE) ->
+  exists version rl, h_version h = Some version /\ h_length h = Zlen bs - Zlen rest + rl /\ 0 <= rl <= Zlen rest /\
+    h_tag h = [] /\ h_versions h = [] /\ (h_type h <> PT_INITIAL -> h_token h = []) /\
+    (rl < 16384 ->
+     exists h0 pnb,
+       flatten (builder_long_header version (h_type h) (h_dcid h) (h_scid h) (h_token h) rl pn) = Ok (h0 ++ pnb) /\
+       Zlen pnb = 2 /\
+       forall after, rl <= Zlen (pnb ++ after) ->
+         pull_quic_header hcl (h0 ++ pnb ++ after) =
+           Ok (mkHeader (Some version) (h_type h) (Zlen h0 + rl) (h_dcid h) (h_scid h) (h_token h) [] [], pnb ++ after)).
+Proof. exact HeaderReencode.header_reencode_long. Qed.
+Print Assumptions header_reencode_long.
+
+(* Retry and Version Negotiation: the encoder applied to the decoded fields gives the datagram back, byte for byte *)
+Theorem header_reencode_retry : forall hcl bs h rest, bytes_ok bs -> pull_quic_header hcl bs = Ok (h, rest) ->
+  h_type h = PT_RETRY ->
+  exists version, h_version h = Some version /\ rest = [] /\ h_length h = Zlen bs /\ Zlen (h_tag h) = 16 /\
+    flatten (encode_quic_retry version (h_scid h) (h_dcid h) (h_token h) (hd 0 bs mod 16) (h_tag h)) = Ok bs.
+Proof. exact HeaderReencode.header_reencode_retry. Qed.
+Print Assumptions header_reencode_retry.
+
+Theorem header_reencode_vn : forall hcl bs h rest, bytes_ok bs -> pull_quic_header hcl bs = Ok (h, rest) ->
+  h_type h = PT_VERSION_NEGOTIATION ->
+  rest = [] /\ h_version h = Some 0 /\ h_length h = Zlen bs /\
+  flatten (encode_quic_version_negotiation (hd 0 bs mod 128) (h_scid h) (h_dcid h) (h_versions h)) = Ok bs.
+Proof. exact HeaderReencode.header_reencode_vn. Qed.
+Print Assumptions header_reencode_vn.
+
+Theorem header_reencode_short : forall hcl bs h rest spin kp pn after, bytes_ok bs ->
+  pull_quic_header hcl bs = Ok (h, rest) ->
+  h_type h = PT_ONE_RTT -> (spin = 0 \/ spin = 1) -> (kp = 0 \/ kp = 1) ->
+  h_version h = None /\ Zlen (h_dcid h) = hcl /\ h_length h = Zlen bs /\
+  h_scid h = [] /\ h_token h = [] /\ h_tag h = [] /\ h_versions h = [] /\
+  exists h0 pnb, flatten (builder_short_header spin kp (h_dcid h) pn) = Ok (h0 ++ pnb) /\ Zlen pnb = 2 /\
+    pull_quic_header hcl (h0 ++ pnb ++ after) =
+      Ok (mkHeader None PT_ONE_RTT (Zlen (h0 ++ pnb ++ after)) (h_dcid h) [] [] [] [], pnb ++ after).
+Proof. exact HeaderReencode.header_reencode_short. Qed.
+Print Assumptions header_reencode_short.
+
+Theorem header_reencode_not_canonical_refuted :
+  pull_quic_header 0 w_initial = Ok (mkHeader (Some 1) PT_INITIAL 18 [170] [] [85] [] [], [1; 2; 3]) /\
+  (exists b, flatten (builder_long_header 1 PT_INITIAL [170] [] [85] 3 258) = Ok b /\ Zlen b = 14 /\
+             b <> firstn 14 w_initial /\
+             pull_quic_header 0 (b ++ [3]) = Ok (mkHeader (Some 1) PT_INITIAL 15 [170] [] [85] [] [], [1; 2; 3])) /\
+  (push_uint16 (Z.lor 16384 16384) = Ok [64; 0] /\ pull_uint_var [64; 0] = Ok (0, [])).
+Proof. exact HeaderReencode.header_reencode_not_canonical_refuted. Qed.
+Print Assumptions header_reencode_not_canonical_refuted.
